@@ -23,6 +23,7 @@ func init() {
 			c.ruleHeaderHash()
 			c.rulePBFields()
 			c.ruleLastWrite()
+			c.ruleFromBlockClamp()
 			c.ruleNoHandRolled("R-NOHANDROLLED", "dot/types", "dot/network/messages", "lib/grandpa", "internal/primitives/consensus/grandpa")
 		})
 }
